@@ -90,6 +90,22 @@ func (r *resRun) Outcome() string { return r.outcome }
 func (r *resRun) Key(buf []byte) []byte {
 	buf = r.w.VerifShape(buf, ecs.VerifIdleLockPoolAbstract)
 	buf = append(buf, byte(r.present[0]), byte(r.present[1]), byte(r.present[2]))
+	// which pointer is actually stored (identity): 0 none, 1/2 the candidates, 3 anything else
+	for t := 0; t < 3; t++ {
+		got := r.w.Resources().Get(r.ids[t])
+		switch {
+		case got == nil:
+			buf = append(buf, 0)
+		case got == r.ptrs[t][0] && t != 2:
+			buf = append(buf, 1)
+		case got == r.ptrs[t][1] && t != 2:
+			buf = append(buf, 2)
+		case t == 2:
+			buf = append(buf, 1) // zero-sized values are indistinguishable by address
+		default:
+			buf = append(buf, 3)
+		}
+	}
 	if !r.ent.IsZero() {
 		buf = append(buf, 'E')
 	}
